@@ -334,3 +334,27 @@ PLAN["C13"] = {
     "thorough": [{"test": "TestC13_Deletion", "checks": 12, "shards": 3, "race": True, "timeout": 3000, "env": {"GORACE": "halt_on_error=0 exitcode=66"}},
                  {"test": "TestC13_Insertion", "checks": 12, "shards": 3, "race": True, "timeout": 3000, "env": {"GORACE": "halt_on_error=0 exitcode=66"}}],
 }
+
+PLAN["C14"] = {
+    "level": "exploration",
+    "rule": ("(Cycles, rapid) 1-6 start/stop cycles per case on ONE fixed address pair, in-process, real depth-3/batch-2 system: Run -> k in 0..3 valid requests brought in flight (confirmed by polling http_requests_in_flight until it reads k) -> "
+             "a drawn delay {none, yield, 1-500 us, 1-50 ms, mid-proof, after completion} -> RequestStop -> AwaitStop -> IMMEDIATELY net.Listen on both addresses -> next cycle on the same addresses. "
+             "(Immediate) 20 000 (thorough 100 000 per GOMAXPROCS) cycles Run/RequestStop/AwaitStop/bind with the stop issued immediately, after a yield, or 1/20/100 us later - i.e. before or while the listeners come up - at GOMAXPROCS 2 and 16. "
+             "(CLI) the built binary 'start' on a keys file, readiness = completed /metrics round trip + 300 ms, k in 0..2 requests in flight, SIGINT. Oracle: every request confirmed in flight before the stop gets a complete 200 response whose proof "
+             "verifies; AwaitStop returns; both addresses bind immediately afterwards and refuse connections; the CLI exits with status 0 and frees both ports; deadlock = AwaitStop/exit not observed 90-120 s after the stop although all client requests "
+             "completed and still blocked 10 s later. A crash of the process with the repository's frames in the trace (the unrecoverable bind panic) is reported as a violation with the step history written so far. "
+             "Non-trivial = a cycle with >= 1 request in flight at the stop, a stop issued before the listeners were up, or >= 2 cycles on one address pair; every immediate cycle counts (distinct by construction), rapid cases by SHA-1."),
+    "assumptions": A_COMMON + ["timing is sampled: delays are drawn, the scheduler decides the rest; GOMAXPROCS 2 and 16 are both exercised", "SIGINT before the signal handler is installed is outside the stated domain (readiness wait)"],
+    "technique": "stateful property testing of start/stop histories with drawn delays and in-flight requests; high-volume immediate-stop cycles; CLI under SIGINT",
+    "level_text": "Exploration of sampled timings: tens of thousands of immediate start/stop cycles per run (the window the pinned tree's defect needed is hit within the first hundred), dozens of cycles with proofs in flight, CLI runs with SIGINT.",
+    "level_note": "schedules are sampled, not enumerated; a failure that kills the process cannot be shrunk and is reported from the trace and the logged history",
+    "quick": [{"test": "TestC14_Cycles", "checks": 12, "timeout": 1200},
+              {"test": "TestC14_Immediate", "rapid": False, "n": {"CYCLES": 20000}, "env": {"GOMAXPROCS": "2"}, "timeout": 900},
+              {"test": "TestC14_Immediate", "rapid": False, "n": {"CYCLES": 20000}, "env": {"GOMAXPROCS": "16"}, "timeout": 900},
+              {"test": "TestC14_CLI", "rapid": False, "n": {"CLIRUNS": 3}, "cli": True, "timeout": 1200}],
+    "thorough": [{"test": "TestC14_Cycles", "checks": 40, "shards": 4, "timeout": 3000},
+                 {"test": "TestC14_Immediate", "rapid": False, "n": {"CYCLES": 100000}, "env": {"GOMAXPROCS": "2"}, "timeout": 3000},
+                 {"test": "TestC14_Immediate", "rapid": False, "n": {"CYCLES": 100000}, "env": {"GOMAXPROCS": "16"}, "timeout": 3000},
+                 {"test": "TestC14_Immediate", "rapid": False, "n": {"CYCLES": 100000}, "env": {"GOMAXPROCS": "4"}, "timeout": 3000},
+                 {"test": "TestC14_CLI", "rapid": False, "n": {"CLIRUNS": 20}, "cli": True, "timeout": 3000}],
+}
